@@ -218,6 +218,15 @@ func (e *watchEng) Gen(r *Rand, thorough bool, idx int) Case {
 
 	c := Case{Header: fmt.Sprintf("# engine=watch flavour=inmem nsaware=0 initcap=%d maxcap=%d gap=%d bs=%d opts=%s case=%d", initcap, maxcap, gap, bs, opts, idx)}
 	sh := map[string]*wshadow{}
+
+	// one case in sixteen starts from a backing store that already holds resources, with two requests racing for the
+	// initial load (see Exec): the state the watches and writes see is the one in which they were created once
+	preload := 0
+	if idx%16 == 1 {
+		preload = len(watchPreloadIDs)
+		c.Header = fmt.Sprintf("# engine=watch flavour=inmem nsaware=0 initcap=%d maxcap=%d gap=%d bs=%d opts=%s preload=%d release=%d case=%d",
+			initcap, maxcap, gap, bs, opts, preload, 2+r.Intn(n/2), idx)
+	}
 	types := []string{"T1", "T1", "T1", "T2"}
 	ids := []string{"a", "b", "c"}
 	nextW := 1
@@ -234,6 +243,11 @@ func (e *watchEng) Gen(r *Rand, thorough bool, idx int) Case {
 
 		curCap[typ] = watchGrow(written[typ], curCap[typ], maxcap)
 		written[typ]++
+	}
+
+	for _, id := range watchPreloadIDs[:preload] {
+		sh["T1/"+id] = &wshadow{exists: true, ver: 1}
+		wrote("T1")
 	}
 
 	for i := 0; i < n; i++ {
@@ -764,8 +778,21 @@ func watchStartErr(err error) string {
 	return "err class=other"
 }
 
-// watchBackingStore accepts every write except while `fail` is set.
-type watchBackingStore struct{ fail bool }
+// watchBackingStore accepts every write except while `fail` is set. With `preload` it holds resources before the
+// first call: Load delivers them, the first Load after waiting for gate1 and any later Load (there must be none: the
+// initial load happens once) after waiting for gate2.
+type watchBackingStore struct {
+	fail    bool
+	preload []resource.Resource
+	loads   int
+	entered chan struct{}
+	gate1   chan struct{}
+	gate2   chan struct{}
+}
+
+// watchPreloadIDs are the resources (type T1, version 1, spec "pre") of a preloaded backing store; the model starts
+// from a state in which they were created in this order.
+var watchPreloadIDs = []string{"a", "b"}
 
 var errWatchBacking = fmt.Errorf("backing store rejected the write")
 
@@ -785,7 +812,28 @@ func (s *watchBackingStore) Destroy(context.Context, resource.Type, resource.Poi
 	return nil
 }
 
-func (s *watchBackingStore) Load(context.Context, inmem.LoadHandler) error { return nil }
+func (s *watchBackingStore) Load(_ context.Context, h inmem.LoadHandler) error {
+	if s.preload == nil {
+		return nil
+	}
+
+	s.loads++
+
+	if s.loads == 1 {
+		close(s.entered)
+		<-s.gate1
+	} else {
+		<-s.gate2
+	}
+
+	for _, r := range s.preload {
+		if err := h(r.Metadata().Type(), r.DeepCopy()); err != nil {
+			return err
+		}
+	}
+
+	return nil
+}
 
 func (e *watchEng) Exec(t *testing.T, c Case) []string {
 	_, h := ParseLine(strings.TrimPrefix(c.Header, "#"))
@@ -814,8 +862,43 @@ func (e *watchEng) Exec(t *testing.T, c Case) []string {
 		var st state.CoreState = inmem.NewStateWithOptions(stOpts...)("n1")
 
 		watches := map[string]*liveWatch{}
+		release := -1
 
-		for _, line := range c.Ops {
+		if k := h.Int("preload"); k > 0 {
+			// the backing store holds k resources; two requests race for the initial (slow) load: the second arrives
+			// while the first is loading and waits for it. A second Load, if the state runs one, is held back until
+			// operation `release` — by then watches are established and resources may have changed.
+			for _, id := range watchPreloadIDs[:k] {
+				_, pa := ParseLine(fmt.Sprintf("create ns=n1 typ=T1 id=%s ver=undefined owner= phase=running fins= labels= c=0 u=0 spec=pre as=", id))
+				r := BuildRes(pa)
+				r.md.SetVersion(resource.VersionUndefined.Next())
+				wbs.preload = append(wbs.preload, r)
+			}
+
+			wbs.entered, wbs.gate1, wbs.gate2 = make(chan struct{}), make(chan struct{}), make(chan struct{})
+			release = h.Int("release")
+			ptr := resource.NewMetadata("n1", "T1", watchPreloadIDs[0], resource.VersionUndefined)
+
+			go st.Get(ctx, ptr) //nolint:errcheck
+
+			<-wbs.entered
+
+			go st.Get(ctx, ptr) //nolint:errcheck
+
+			pipeSettle()
+			close(wbs.gate1)
+			synctest.Wait()
+		}
+
+		for i, line := range c.Ops {
+			// (a shrunk case may be shorter than `release`: then before its last operation)
+			if release >= 0 && (i == release || i == len(c.Ops)-1) {
+				close(wbs.gate2)
+				synctest.Wait()
+
+				release = -1
+			}
+
 			op, a := ParseLine(line)
 			if d := fromTick(a.Int("t")).Sub(time.Now()); d > 0 {
 				time.Sleep(d)
@@ -863,6 +946,10 @@ func (e *watchEng) Exec(t *testing.T, c Case) []string {
 			synctest.Wait()
 
 			out = append(out, res)
+		}
+
+		if release >= 0 {
+			close(wbs.gate2)
 		}
 
 		cancel()
